@@ -1,4 +1,6 @@
 mod alloc_mon;
+mod c07;
+mod c08;
 mod c12x;
 mod c13;
 mod c14;
@@ -98,6 +100,8 @@ fn main() {
         "domops" => domops::main(&a),
         "sstr" => sstr::main(&a),
         "c17" => c17::main(&a),
+        "c07" => c07::main(&a),
+        "c08" => c08::main(&a),
         "c13" => c13::main(&a),
         "c13child" => c13::child_main(),
         "c14" => c14::main(&a),
